@@ -857,6 +857,11 @@ func validateV2FileContracts(ms *MidState, txn types.V2Transaction) error {
 			return fmt.Errorf("file contract renewal %v parent (%v) %s", i, fcr.Parent.ID, err)
 		}
 		fc := fcr.Parent.V2FileContract
+		// if the contract was revised earlier in this block, it is the contract
+		// as revised that is being resolved (in particular, its current keys)
+		if i, ok := ms.elements[fcr.Parent.ID]; ok && ms.v2fces[i].Revision != nil {
+			fc = *ms.v2fces[i].Revision
+		}
 		switch r := fcr.Resolution.(type) {
 		case *types.V2FileContractRenewal:
 			renewal := *r
